@@ -77,6 +77,19 @@ def job_lattice(tier, rng):
         for rank in (2, 3):
             for eps in (1e-7, 1e-10):
                 ksa.append(dict(mols=ms, params=dict(scf_converger=[3, {"max_rank": rank, "err_threshold": 0.0, "T_el": 1500.0}], sp2=[False, 1e-5], scf_eps=eps), start="guess", cap=None, pad_coord=0.0, no_trace=True))
+    # unrestricted padded batches with a radical anion (an occupied spin orbital at positive energy), both row orders
+    scf_driver.MOLS["h2o-rad"] = ([8, 1, 1], [[0.00, 0.00, 0.00], [0.96, 0.02, 0.01], [-0.24, 0.93, 0.03]], -1, 2)
+    scf_driver.MOLS["nh3q"] = ([7, 1, 1, 1], [[0, 0, 0.12], [0.94, 0.02, -0.27], [-0.47, 0.81, -0.25], [-0.47, -0.81, -0.27]], 0, 1)
+    extra = []
+    for ms in (["nh3q", "h2o-rad"], ["h2o-rad", "nh3q"], ["ch4", "h2o-rad", "h2"]):
+        for cv in ([0, 0.3], [0, 0.0], [1]):
+            for eps in (1e-6, 1e-8):
+                extra.append(dict(mols=ms, params=dict(scf_converger=list(cv), sp2=[False, 1e-5], scf_eps=eps, UHF=True), start="guess", cap=None, pad_coord=0.0))
+    # excited states requested: the SCF threshold asked for is the one that has to be met
+    for ms in (["h2o"], ["h2co"], ["h2co", "h2co"]):
+        for cv in ([1], [2], [0, 0.3]):
+            extra.append(dict(mols=ms, params=dict(scf_converger=list(cv), sp2=[False, 1e-5], scf_eps=1e-10, excited_states={"n_states": 2, "method": "cis"}), start="guess", cap=None, pad_coord=0.0))
+    jobs += extra
     if tier == "quick":
         must = [j for j in jobs if (j["mols"] == ["h2o", "oh-"] and j["params"]["sp2"][0] and j["params"]["scf_eps"] == 1e-7 and j["start"] == "guess" and j["cap"] is None and j["params"]["scf_converger"] == [1])]
         must += [j for j in jobs if j["cap"] == 3 and j["mols"] in (["ch4", "h2"], ["h2o"]) and j["params"]["scf_converger"] in ([0, 0.3], [2]) and not j["params"]["sp2"][0]]
@@ -86,6 +99,7 @@ def job_lattice(tier, rng):
                  and j["params"]["scf_converger"] in ([1], [0, 0.3]) and j["params"]["sp2"] in ([False, 1e-5], [True, 1e-5])]
         # open shell, every solver that supports it, tightest threshold: density criteria must be live
         must += [j for j in jobs if j["mols"] in (["ch3"], ["ch2t"]) and j["params"]["scf_eps"] == 1e-10 and j["start"] in ("guess", "perturbed") and j["cap"] is None and j["params"]["scf_converger"] in ([1], [0, 0.3])]
+        must += extra
         rest = [j for j in jobs if j not in must]
         jobs = must + rng.sample(rest, 60) + ksa[::2]
     else:
